@@ -70,15 +70,23 @@ def get_ptrs(v, pos):
     return [("p", v.p)]
 
 
-def check_case(tkey, pos, width, endian, compiled, res: JobResult, tier):
+import sys as _sys
+
+NATIVE = "<" if _sys.byteorder == "little" else ">"
+SPELLINGS = {"@": NATIVE, "=": NATIVE, "!": ">"}  # other spellings of a byte order the library accepts
+
+
+def check_case(tkey, pos, width, endian, compiled, res: JobResult, tier, spelling=None):
     from dissect.cstruct import NullPointerDereference, Pointer, cstruct
 
     tname, tdesc = TARGETS[tkey]
     text = PRE + POSITIONS[pos].format(T=tname)
     cfg = Cfg(endian=endian, ptr=INTS[width])
     psz = INTS[width].size
-    cs = cstruct(endian=endian, pointer=width)
+    cs = cstruct(endian=spelling or endian, pointer=width)
     case = {"target": tkey, "position": pos, "width": width, "endian": endian, "compiled": compiled}
+    if spelling:
+        case["spelling"] = spelling
 
     def issue(kind, d, **kw):
         c = dict(case)
@@ -95,6 +103,11 @@ def check_case(tkey, pos, width, endian, compiled, res: JobResult, tier):
     res.transitions += 1
     # field offsets of the pointer slots inside S
     fields = {f._name: f for f in S.__fields__}
+    holder = cs.N if pos in ("nested", "structarray") else cs.UU if pos == "union" else S
+    pname_ = "arr" if pos == "array" else "p"
+    if pname_ not in holder.fields:
+        issue("definition:field-name", f"the pointer member declared as {pname_!r} is named {[n for n in holder.fields]} (declarator text: {POSITIONS[pos].format(T=tname)!r})")
+        return
     if pos == "nested":
         slot_off = [fields["n"].offset + cs.N.fields["p"].offset]
         ptype = cs.N.fields["p"].type
@@ -350,6 +363,11 @@ def run(job) -> JobResult:
         for endian in "<>":
             for compiled in (False, True):
                 check_case(tkey, pos, width, endian, compiled, res, tier)
+        if pos in ("only", "middle", "array") and tkey in ("uint16", "tt_t", "char", "uint8*"):
+            # the byte order spelled '@' / '=' (native) or '!' (network) behaves like the order it denotes
+            for spelling, endian in SPELLINGS.items():
+                for compiled in (False, True):
+                    check_case(tkey, pos, width, endian, compiled, res, tier, spelling=spelling)
     return res
 
 
@@ -357,7 +375,7 @@ def replay(case):
     if "history" in case:
         return [v for v in width_histories("thorough").violations if v.case == case]
     res = JobResult()
-    check_case(case["target"], case["position"], case["width"], case["endian"], case["compiled"], res, "thorough")
+    check_case(case["target"], case["position"], case["width"], case["endian"], case["compiled"], res, "thorough", spelling=case.get("spelling"))
     return res.violations
 
 
